@@ -705,6 +705,22 @@ impl<
     }
 }
 
+#[cfg(feature = "verif-hooks")]
+impl<K: Hash, V, KH, FH, RH, WH> WTinyLFUCache<K, V, KH, FH, RH, WH> {
+    /// Verification hook: `(estimator, window, main)`.
+    #[doc(hidden)]
+    #[allow(clippy::type_complexity)]
+    pub fn verif_parts(
+        &self,
+    ) -> (
+        &TinyLFU<K, KH>,
+        &LRUCache<K, V, WH>,
+        &SegmentedCache<K, V, FH, RH>,
+    ) {
+        (&self.tinylfu, &self.lru, &self.slru)
+    }
+}
+
 #[cfg(test)]
 mod test {
     use core::hash::BuildHasher;
